@@ -14,6 +14,7 @@
 
 #include <atomic>
 #include <cstdint>
+#include <limits>
 #include <type_traits>
 
 namespace vq {
@@ -142,4 +143,15 @@ inline const R &peek(const Q &q) { return q._v; }
 inline Q make(R v) { return Q(Q::Raw{}, std::move(v)); }
 
 }  // namespace vq
+
+// "no numeric_limits": the specialisation exists but offers nothing, so any
+// use of std::numeric_limits<T>::epsilon()/min()/max()/... with the archetype
+// fails to compile instead of silently yielding T().
+namespace std {
+template <>
+class numeric_limits<vq::Q> {
+ public:
+  static constexpr bool is_specialized = false;
+};
+}  // namespace std
 #endif
